@@ -40,6 +40,13 @@ ASSUMPTIONS = [
     "object - a dimension vector names base units, and kelvin is the only base unit in this property's domain (a level "
     "unit converted to the base-unit expansion of W, V, ... is not a documented pair and is refused by the code); for Quantity targets the expected value is the documented one divided by tm and "
     "value() (which takes no Quantity) is not called",
+    "Decimal magnitudes: the unchanged code accepts them only where the method body never combines them with a float literal; "
+    "where it does accept one, value()/to() must agree with the float result (same tolerance); a refusal is not judged",
+    "np.linspace(Quantity(s,v), Quantity(x,u), 3) converts its second end point to the first one's units: that end point is "
+    "judged like value(v) (30% of the scalar cases; np.logspace is not exercised)",
+    "the documented compound pair W/m2 <-> dBSIL carries admissible prefixes on every component; a level unit inside a fraction "
+    "with a PREFIXED denominator (dBm/kHz) is not generated: the code multiplies the level by the denominator's factor there "
+    "(observed, outside the documented examples, not judged)",
     "level histories follow `a += b` / `a -= b` as a = a + b / a = a - b; a subtraction whose operands have come closer "
     "than 0.5 dB is dropped before running; the absolute tolerance grows by 1e-11/prefix per augmented step",
     "on every stream, a to() that raises must leave value and units as they were (impl-only oracle: the code assigns only after "
@@ -84,9 +91,10 @@ def scale_of(cat, p, u):
     return (F(5, 9), F("459.67") * F(5, 9))
 
 
-def lin_items(lin, p):
+def lin_items(lin, p, p2=None):
+    """linear counterpart; for the compound W/m2 every component may carry an admissible prefix (mW/cm2)"""
     if lin == "W/m2":
-        return [(p, "W", (1, 1)), (None, "m", (-2, 1))]
+        return [(p, "W", (1, 1)), (p2, "m", (-2, 1))]
     return [(p, lin, (1, 1))]
 
 
@@ -142,17 +150,19 @@ def log_cases(ctx, cat):
         if not thorough and len(combos) > 5:
             combos = [(None, None), ("d", None)] + rng.sample(combos, 3)
         for pl, pn in combos:
-            iL, iN = [(pl, L, (1, 1))], lin_items(lin, pn)
-            spec = {"kk": k, "ref": ref, "p": pmag(cat, pl), "lin": pmag(cat, pn)}
+            p2 = rng.choice([None, None] + prefixes_of(cat, "m")) if lin == "W/m2" else None
+            iL, iN = [(pl, L, (1, 1))], lin_items(lin, pn, p2)
+            linfac = pmag(cat, pn) / pmag(cat, p2) ** 2 if lin == "W/m2" else pmag(cat, pn)
+            spec = {"kk": k, "ref": ref, "p": pmag(cat, pl), "lin": linfac}
             for y in level_values(rng, 2):
                 yy = y / (10 * pmag(cat, pl))        # y decibels expressed in the unit
                 out.append({"stream": "level->linear", "x": yy, "iu": iL, "iv": iN, "spec": ("fromLevel", spec)})
             for _ in range(2):
                 r = math.exp(rng.uniform(-46, 46))   # x_SI/ref within 1e+-20
-                x = r * float(ref) / pmag(cat, pn)
+                x = r * float(ref) / linfac
                 out.append({"stream": "linear->level", "x": x, "iu": iN, "iv": iL, "spec": ("toLevel", spec)})
             if rng.random() < 0.3:
-                out.append({"stream": "linear->level", "x": [float(ref) / pmag(cat, pn), 10 * float(ref) / pmag(cat, pn), 3.3],
+                out.append({"stream": "linear->level", "x": [float(ref) / linfac, 10 * float(ref) / linfac, 3.3],
                             "iu": iN, "iv": iL, "spec": ("toLevel", spec)})
     for L, lin, k in NEPER:
         for pl in prefixes_of(cat, L):
@@ -386,6 +396,11 @@ def run_conv_cases(ctx, cat, cases):
                               "%s -> %s of %r: with an uncertainty attached value()/to() give %r, without it %r" %
                               (c["eu"], c["ev"], c["x"], got, plain["value"]), dict(replay, with_uncertainty=True))
                 continue
+        if not isinstance(c["x"], list) and want is not None and U.in_float_range(want):
+            v2 = extra_entry_points(ctx, cat, cs, want[0], rtol, atol)
+            if v2:
+                ctx.violation("%s:%s:%s->%s" % (c["stream"], v2[0], c["iu"][0][1], c["iv"][0][1]), v2[1], dict(replay, entry=v2[0]))
+                continue
         # reverse conversion returns the original value
         back = roundtrip(c)
         if back == "err":
@@ -403,6 +418,46 @@ def run_conv_cases(ctx, cat, cases):
             if not U.close(back, xs, 1e-9, rt_atol):
                 ctx.violation("%s:roundtrip:%s->%s" % (c["stream"], c["iu"][0][1], c["iv"][0][1]),
                               "%r %s -> %s -> %s returns %r" % (c["x"], c["eu"], c["ev"], c["eu"], back), replay)
+
+
+def extra_entry_points(ctx, cat, c, want, rtol, atol):
+    """the same conversion reached through other public entry points: a Decimal magnitude (where the code accepts one)
+    and the end point of np.linspace (whose second end point is converted to the first one's units)"""
+    import numpy as np
+    from decimal import Decimal
+    from scinumtools.units import Quantity
+    x, eu, ev = c["x"], c["eu"], c["ev"]
+    with warnings.catch_warnings(), np.errstate(all="ignore"):
+        warnings.simplefilter("ignore")
+        if ctx.rng.random() < 0.6:
+            try:
+                dv = float(Quantity(Decimal(repr(x)), eu).value(ev))
+                dq = Quantity(Decimal(repr(x)), eu)
+                dq.to(ev)
+                dt = float(dq.value())
+                ctx.count("variant.decimal-accepted")
+            except Exception:
+                dv = None          # Decimal support is partial (Decimal op float raises TypeError): not judged
+                ctx.count("variant.decimal-not-accepted")
+            if dv is not None and (not U.close(dv, want, rtol, atol) or not U.close(dt, want, rtol, atol)):
+                return ("decimal-value", "%s -> %s of Decimal('%r'): value()/to() give %r / %r, with the float magnitude %r" %
+                        (eu, ev, x, dv, dt, want))
+        if ctx.rng.random() < 0.3:
+            ctx.count("variant.linspace")
+            start = 0.5 * want if want else 1.0
+            try:
+                arr = np.linspace(Quantity(start, ev), Quantity(x, eu), 3)
+                vals, units = U.as_list(arr.value()), arr.units()
+            except C4.FLOAT_ERRORS:
+                return None
+            except Exception as e:
+                return ("linspace-refused", "np.linspace(Quantity(%r,%r), Quantity(%r,%r), 3) raises %r although %s converts to %s" %
+                        (start, ev, x, eu, e, eu, ev))
+            if len(vals) != 3 or not U.close(vals[0], start, 1e-12) or not U.close(vals[-1], want, rtol, atol) \
+                    or units != C4.target_expression(ev):
+                return ("linspace-endpoint", "np.linspace(Quantity(%r,%r), Quantity(%r,%r), 3) = %r %s; its end point converted to %s is %r" %
+                        (start, ev, x, eu, vals, units, ev, want))
+    return None
 
 
 def roundtrip(c):
